@@ -576,4 +576,40 @@ func runC17(c *core.Ctx) {
 		}
 		c17Check(c, pool, specs[r.Intn(len(specs))], c17Doc{src: src})
 	}
+	// 3. sibling documents through one reused source buffer: tables of the same shape whose delimiter rows differ only in
+	// their colons, written one after the other into the same backing array (a caller that recycles its read buffer).
+	// Anything remembered by reference to the source rather than by value shows up as the previous document's alignments.
+	arena := make([]byte, 0, 1<<16)
+	cellsOf := []string{"---", ":--", "--:", ":-:"}
+	namesOf := []string{"", "left", "right", "center"}
+	n3 := c.PerShard(c.N(60000, 2000000))
+	for i := 0; i < n3; i++ {
+		k := 1 + r.Intn(4)
+		sp := specs[r.Intn(len(specs))]
+		// a handful of siblings of one shape in a row
+		for sib := 2 + r.Intn(3); sib > 0; sib-- {
+			exp := &c17Expect{cols: k, valid: true, container: "top"}
+			var hdr, del, row strings.Builder
+			for j := 0; j < k; j++ {
+				a := r.Intn(4)
+				exp.aligns = append(exp.aligns, namesOf[a])
+				fmt.Fprintf(&hdr, "| h%d ", j)
+				del.WriteString("|" + cellsOf[a])
+				fmt.Fprintf(&row, "| r0c%d ", j)
+			}
+			exp.rowCells = []int{k}
+			doc := hdr.String() + "|\n" + del.String() + "|\n" + row.String() + "|\n"
+			arena = append(arena[:0], doc...)
+			c17Check(c, pool, sp, c17Doc{src: arena[:len(doc):len(doc)], exp: exp})
+			c.Count("sibling_documents_through_one_buffer", 1)
+		}
+		if i%4 == 0 {
+			d := c17Gen(r)
+			if len(d.src) < cap(arena) {
+				arena = append(arena[:0], d.src...)
+				d.src = arena[:len(d.src):len(d.src)]
+				c17Check(c, pool, sp, d)
+			}
+		}
+	}
 }
